@@ -277,6 +277,78 @@ pub open spec fn dyn_update_bytes(b0: u128, a0: [u8; TICKS_MAX_USIZE], k: nat, u
     &&& b1 == (if u.initialized { b0 | (1u128 << (k as u128)) } else { b0 & !(1u128 << (k as u128)) })
     &&& (forall|q: int| 0 <= q < o ==> a1[q] == a0[q])
     &&& (if u.initialized { a1[o] == 1 && tick_is(tick_view_at(a1, o), u) } else { a1[o] == 0 })
-    &&& (forall|q: int| o + newlen <= q < 9944 - 112 ==> #[trigger] a1[q] == a0[q - newlen + oldlen])
+    &&& (forall|q: int| o + newlen <= q < (if was && !u.initialized { 9944 - 112 } else { 9944int }) ==> #[trigger] a1[q] == a0[q - newlen + oldlen])
+}
+
+// ------------------------------------------------------------------ from bytes to slots (C13: encoding stays well formed, other slots keep their contents)
+/// the encoding is well formed: no bitmap bit above slot 87 and every slot's tag byte is non-zero exactly when its bitmap bit is set
+pub open spec fn dyn_wf(b: u128, a: [u8; TICKS_MAX_USIZE]) -> bool {
+    b >> 88u128 == 0 && forall|i: nat| i < 88 ==> ((#[trigger] a[off(b, i)]) != 0) == bit(b, i)
+}
+/// used length of the tick bytes: 88 + 112 * (number of initialized ticks)  (+ 60 header bytes + 88... = 148 + 112 n for the account)
+pub open spec fn dyn_used(b: u128) -> int { off(b, 88) }
+pub proof fn lemma_off_step(b: u128, i: nat) ensures off(b, i + 1) == off(b, i) + (if bit(b, i) { 113int } else { 1int }) { }
+pub proof fn lemma_off_mono(b: u128, i: nat, j: nat) requires i <= j ensures off(b, i) <= off(b, j), i < j ==> off(b, i) + (if bit(b, i) { 113int } else { 1int }) <= off(b, j) decreases j
+{
+    lemma_pc_mono(b, i, j);
+    if i < j { lemma_pc_mono(b, i + 1, j); lemma_off_step(b, i); }
+}
+/// one slot i != k under P2
+pub proof fn lemma_dyn_update_slot(b0: u128, a0: [u8; TICKS_MAX_USIZE], k: nat, u: crate::state_core::TickUpdate, b1: u128, a1: [u8; TICKS_MAX_USIZE], i: nat)
+    requires k < 88, i < 88, i != k, dyn_wf(b0, a0), dyn_update_bytes(b0, a0, k, u, b1, a1),
+    ensures bit(b1, i) == bit(b0, i), (a1[off(b1, i)] != 0) == bit(b1, i), bit(b0, i) ==> tick_view_at(a1, off(b1, i)) == tick_view_at(a0, off(b0, i)),
+        off(b1, i) == off(b0, i) + (if i > k { 112 * ((if u.initialized { 1int } else { 0int }) - (if bit(b0, k) { 1int } else { 0int })) } else { 0int }),
+{
+    let o = off(b0, k);
+    assert((a0[off(b0, k)] != 0) == bit(b0, k));
+    let was = bit(b0, k);
+    let oldlen = if was { 113int } else { 1int }; let newlen = if u.initialized { 113int } else { 1int };
+    let d = newlen - oldlen;
+    assert forall|j: nat| j < 128 implies bit(b1, j) == (if j == k { u.initialized } else { bit(b0, j) }) by { lemma_bit_set(b0, k, j); }
+    lemma_pc_set(b0, b1, k, i); lemma_pc_set(b0, b1, k, 88); lemma_pc_set(b0, b1, k, k);
+    lemma_off_bounds(b0, k); lemma_off_bounds(b0, i);
+    let len_i = if bit(b0, i) { 113int } else { 1int };
+    assert((a0[off(b0, i)] != 0) == bit(b0, i));
+    if i < k {
+        lemma_off_mono(b0, i, k);
+        assert(off(b1, i) == off(b0, i));
+        assert(forall|q: int| off(b0, i) <= q < off(b0, i) + len_i ==> a1[q] == a0[q]);
+        if bit(b0, i) { axiom_tick_view(a1, off(b1, i), a0, off(b0, i)); }
+    } else {
+        lemma_off_mono(b0, k, i); lemma_off_mono(b0, i, 88);
+        assert(off(b1, i) == off(b0, i) + d);
+        assert(off(b1, i) >= o + newlen);
+        assert(off(b0, i) + len_i <= off(b0, 88));
+        lemma_pc_bounds(b0, k); lemma_pc_mono(b0, k + 1, 88); lemma_off_step(b0, k);
+        assert(pc(b0, k + 1) == pc(b0, k) + (if was { 1int } else { 0int }));
+        assert(!was ==> off(b0, 88) <= 9944 - 112);
+        assert(off(b1, i) + len_i <= (if was && !u.initialized { 9944 - 112 } else { 9944int }));
+        assert(forall|q: int| off(b1, i) <= q < off(b1, i) + len_i ==> #[trigger] a1[q] == a0[q - d]);
+        if bit(b0, i) { axiom_tick_view(a1, off(b1, i), a0, off(b0, i)); }
+    }
+}
+/// C13 at slot level: P2 keeps the encoding well formed, puts the update into slot k, keeps every other slot's flag and tick, and changes the
+/// used length by exactly 112 bytes per change of the number of initialized ticks
+pub proof fn lemma_dyn_update_slots(b0: u128, a0: [u8; TICKS_MAX_USIZE], k: nat, u: crate::state_core::TickUpdate, b1: u128, a1: [u8; TICKS_MAX_USIZE])
+    requires k < 88, dyn_wf(b0, a0), dyn_update_bytes(b0, a0, k, u, b1, a1),
+    ensures
+        dyn_wf(b1, a1),
+        bit(b1, k) == u.initialized, u.initialized ==> tick_is(tick_view_at(a1, off(b1, k)), u),
+        forall|i: nat| i < 88 && i != k ==> #[trigger] bit(b1, i) == bit(b0, i),
+        forall|i: nat| i < 88 && i != k && bit(b0, i) ==> #[trigger] tick_view_at(a1, off(b1, i)) == tick_view_at(a0, off(b0, i)),
+        dyn_used(b1) == dyn_used(b0) + 112 * ((if u.initialized { 1int } else { 0int }) - (if bit(b0, k) { 1int } else { 0int })),
+{
+    assert((a0[off(b0, k)] != 0) == bit(b0, k));
+    lemma_bit_set(b0, k, k);
+    let kk = k as u128;
+    assert(kk < 88 && b0 >> 88u128 == 0u128 ==> (b0 | (1u128 << kk)) >> 88u128 == 0u128 && (b0 & !(1u128 << kk)) >> 88u128 == 0u128) by(bit_vector);
+    assert forall|j: nat| j < 128 implies bit(b1, j) == (if j == k { u.initialized } else { bit(b0, j) }) by { lemma_bit_set(b0, k, j); }
+    lemma_pc_set(b0, b1, k, k); lemma_pc_set(b0, b1, k, 88);
+    assert(off(b1, k) == off(b0, k));
+    assert forall|i: nat| i < 88 implies ((#[trigger] a1[off(b1, i)]) != 0) == bit(b1, i) by {
+        if i != k { lemma_dyn_update_slot(b0, a0, k, u, b1, a1, i); }
+    }
+    assert forall|i: nat| i < 88 && i != k implies #[trigger] bit(b1, i) == bit(b0, i) by { lemma_dyn_update_slot(b0, a0, k, u, b1, a1, i); }
+    assert forall|i: nat| i < 88 && i != k && bit(b0, i) implies #[trigger] tick_view_at(a1, off(b1, i)) == tick_view_at(a0, off(b0, i)) by { lemma_dyn_update_slot(b0, a0, k, u, b1, a1, i); }
 }
 }
